@@ -964,7 +964,8 @@ theorem preReconnect_reconnect_own (env : CryptoEnv) (o : Oracle) (n : Node) (no
   unfold preReconnect
   exact ⟨h1.trans (sched_reconnect hs), h2.trans (sched_own hs)⟩
 
-/-! ## message handling does not reschedule the announcement -/
+/-! ## message handling and the schedule of the announcement: only a completed handshake (`add_new_peer`) touches `next_peers`,
+    and it can only pull it forward to `now` -/
 
 theorem connectToPeers_nextPeers (env : CryptoEnv) (o : Oracle) (c : Ctx) (l : List PeerInfo) :
     (connectToPeers env o c l).node.nextPeers = c.node.nextPeers := by
@@ -992,24 +993,112 @@ theorem updatePeerInfo_nextPeers (env : CryptoEnv) (o : Oracle) (c : Ctx) (now :
     | none => rfl
     | some i => simp only []; rw [connectToPeers_nextPeers]
 
-theorem addNewPeer_nextPeers (env : CryptoEnv) (o : Oracle) (c : Ctx) (now : Int) (a : NAddr) (info : NodeInfo) :
-    (addNewPeer env o c now a info).node.nextPeers = c.node.nextPeers := by
-  unfold addNewPeer
-  simp only []
-  split
-  · rfl
-  · rw [updatePeerInfo_nextPeers]
-
 theorem removePeer_nextPeers (c : Ctx) (now : Int) (a : NAddr) : (removePeer c now a).node.nextPeers = c.node.nextPeers := by
   unfold removePeer
   simp only []
   split <;> rfl
 
-theorem handleResult_nextPeers (env : CryptoEnv) (o : Oracle) (c : Ctx) (now : Int) (s : NAddr) (res : MsgResult) (out : Bytes) :
-    (handleResult env o c now s res out).1.node.nextPeers = c.node.nextPeers := by
+/-- what a step of the message handling for the address `s` does to the announcement schedule: nothing — and then no address joins
+    the peer list —, or the schedule is pulled forward to `now` — and then `s` is a peer afterwards -/
+def SchedStep (now : Int) (s : NAddr) (c c' : Ctx) : Prop :=
+  (c'.node.nextPeers = c.node.nextPeers ∧ ∀ b, b ∈ c'.node.peers.map (·.1) → b ∈ c.node.peers.map (·.1)) ∨
+  (c'.node.nextPeers = min c.node.nextPeers now ∧ s ∈ c'.node.peers.map (·.1))
+
+theorem SchedStep.same {now : Int} {s : NAddr} {c c' : Ctx} (h1 : c'.node.nextPeers = c.node.nextPeers)
+    (h2 : c'.node.peers.map (·.1) = c.node.peers.map (·.1)) : SchedStep now s c c' :=
+  Or.inl ⟨h1, fun _ hb => h2 ▸ hb⟩
+
+theorem SchedStep.refl (now : Int) (s : NAddr) (c : Ctx) : SchedStep now s c c := SchedStep.same rfl rfl
+
+/-- a step before that leaves the schedule and the peer addresses alone -/
+theorem SchedStep.pre {now : Int} {s : NAddr} {c0 c c' : Ctx} (h : SchedStep now s c c') (h1 : c.node.nextPeers = c0.node.nextPeers)
+    (h2 : c.node.peers.map (·.1) = c0.node.peers.map (·.1)) : SchedStep now s c0 c' := by
+  rcases h with ⟨ha, hb⟩ | ⟨ha, hb⟩
+  · exact Or.inl ⟨ha.trans h1, fun b hm => h2 ▸ hb b hm⟩
+  · exact Or.inr ⟨by rw [ha, h1], hb⟩
+
+/-- a step after that leaves the node alone -/
+theorem SchedStep.of_node {now : Int} {s : NAddr} {c c' c'' : Ctx} (h : SchedStep now s c c') (hn : c''.node = c'.node) :
+    SchedStep now s c c'' := by
+  unfold SchedStep
+  rw [hn]
+  exact h
+
+theorem addNewPeer_schedStep (env : CryptoEnv) (o : Oracle) (c : Ctx) (now : Int) (a : NAddr) (info : NodeInfo) :
+    SchedStep now a c (addNewPeer env o c now a info) := by
+  unfold addNewPeer
+  simp only []
+  split
+  · exact SchedStep.refl now a c
+  · refine Or.inr ⟨?_, ?_⟩
+    · show min (updatePeerInfo env o _ now a (some info)).node.nextPeers now = _
+      rw [updatePeerInfo_nextPeers]
+    · show a ∈ (updatePeerInfo env o _ now a (some info)).node.peers.map (·.1)
+      rw [updatePeerInfo_keys]
+      exact mem_key (lookupA_some_mem (lookupA_insertA_self _ _ _))
+
+/-- `add_new_peer` with a pending handshake object: the next announcement is due at once -/
+theorem addNewPeer_nextPeers (env : CryptoEnv) (o : Oracle) (c : Ctx) (now : Int) (a : NAddr) (info : NodeInfo) (pc : PeerCrypto)
+    (hp : lookupA c.node.pending a = some pc) :
+    (addNewPeer env o c now a info).node.nextPeers = min c.node.nextPeers now := by
+  unfold addNewPeer
+  simp only [hp]
+  rw [updatePeerInfo_nextPeers]
+
+/-- … and without one (the `else` branch of `add_new_peer`) nothing changes -/
+theorem addNewPeer_none (env : CryptoEnv) (o : Oracle) (c : Ctx) (now : Int) (a : NAddr) (info : NodeInfo)
+    (hp : lookupA c.node.pending a = none) : addNewPeer env o c now a info = c := by
+  unfold addNewPeer
+  simp only [hp]
+
+theorem removePeer_keys_sub (c : Ctx) (now : Int) (a : NAddr) (b : NAddr) (hb : b ∈ (removePeer c now a).node.peers.map (·.1)) :
+    b ∈ c.node.peers.map (·.1) := by
+  unfold removePeer at hb
+  simp only [] at hb
+  split at hb
+  · exact hb
+  · exact key_mem_eraseA hb
+
+theorem handleResult_schedStep (env : CryptoEnv) (o : Oracle) (c : Ctx) (now : Int) (s : NAddr) (res : MsgResult) (out : Bytes) :
+    SchedStep now s c (handleResult env o c now s res out).1 := by
   unfold handleResult
   cases res with
   | message ty data =>
+    simp only []
+    split
+    · split
+      · exact SchedStep.refl ..
+      · split
+        · exact SchedStep.same rfl rfl
+        · exact SchedStep.same rfl rfl
+    · split
+      · split
+        · exact SchedStep.same rfl rfl
+        · exact SchedStep.same (updatePeerInfo_nextPeers ..) (updatePeerInfo_keys ..)
+      · split
+        · exact SchedStep.same (updatePeerInfo_nextPeers ..) (updatePeerInfo_keys ..)
+        · split
+          · exact Or.inl ⟨removePeer_nextPeers .., removePeer_keys_sub c now s⟩
+          · exact SchedStep.same rfl rfl
+  | initialized payload =>
+    simp only []
+    split
+    · exact addNewPeer_schedStep ..
+    · exact SchedStep.refl ..
+  | initializedWithReply payload =>
+    simp only []
+    split
+    · exact (addNewPeer_schedStep env o c now s _).of_node rfl
+    · exact SchedStep.refl ..
+  | reply => exact SchedStep.same rfl rfl
+  | none => exact SchedStep.refl ..
+
+/-- results of datagrams without the handshake marker leave the schedule alone -/
+theorem handleResult_nextPeers_plain (env : CryptoEnv) (o : Oracle) (c : Ctx) (now : Int) (s : NAddr) (res : MsgResult) (out : Bytes)
+    (hres : PlainRes res) : (handleResult env o c now s res out).1.node.nextPeers = c.node.nextPeers := by
+  rcases hres with rfl | ⟨ty, data, rfl⟩
+  · rfl
+  · unfold handleResult
     simp only []
     split
     · split
@@ -1024,68 +1113,94 @@ theorem handleResult_nextPeers (env : CryptoEnv) (o : Oracle) (c : Ctx) (now : I
         · split
           · exact removePeer_nextPeers ..
           · rfl
-  | initialized payload =>
-    simp only []
-    split
-    · exact addNewPeer_nextPeers ..
-    · rfl
-  | initializedWithReply payload =>
-    simp only []
-    split
-    · exact addNewPeer_nextPeers ..
-    · rfl
-  | reply => rfl
-  | none => rfl
 
-theorem applyOutcome_nextPeers (env : CryptoEnv) (o : Oracle) (c : Ctx) (now : Int) (s : NAddr) (inPeers : Bool) (r : POutcome MsgResult) :
-    (applyOutcome env o c now s inPeers r).1.node.nextPeers = c.node.nextPeers := by
+theorem storePc_nextPeers (c : Ctx) (s : NAddr) (inPeers : Bool) (pc : PeerCrypto) :
+    (storePc c s inPeers pc).node.nextPeers = c.node.nextPeers := by
+  unfold storePc
+  simp only []
+  split
+  · split <;> rfl
+  · rfl
+
+theorem storePc_keys' (c : Ctx) (s : NAddr) (inPeers : Bool) (pc : PeerCrypto) :
+    (storePc c s inPeers pc).node.peers.map (·.1) = c.node.peers.map (·.1) := by
+  cases inPeers with
+  | true => exact storePc_peers_keys c s pc
+  | false => rfl
+
+theorem applyOutcome_schedStep (env : CryptoEnv) (o : Oracle) (c : Ctx) (now : Int) (s : NAddr) (inPeers : Bool) (r : POutcome MsgResult) :
+    SchedStep now s c (applyOutcome env o c now s inPeers r).1 := by
   rw [applyOutcome_eq]
-  have hstore : ∀ pc, (storePc c s inPeers pc).node.nextPeers = c.node.nextPeers := by
-    intro pc
-    unfold storePc
-    simp only []
-    split
-    · split <;> rfl
-    · rfl
   cases r with
-  | panic => rfl
-  | err pc e => exact hstore pc
+  | panic => exact SchedStep.same rfl rfl
+  | err pc e => exact SchedStep.same (storePc_nextPeers c s inPeers pc) (storePc_keys' c s inPeers pc)
   | ok pc out res log =>
     simp only []
-    rw [handleResult_nextPeers]
-    exact hstore pc
+    exact (handleResult_schedStep env o _ now s res out).pre (storePc_nextPeers c s inPeers pc) (storePc_keys' c s inPeers pc)
 
-theorem responder_nextPeers (env : CryptoEnv) (bodyOf : Init.BodyOf) (o : Oracle) (n : Node) (now : Int) (s : NAddr) (data tail : Bytes)
+theorem applyOutcome_nextPeers_plain (env : CryptoEnv) (o : Oracle) (c : Ctx) (now : Int) (s : NAddr) (inPeers : Bool) (r : POutcome MsgResult)
+    (hr : ∀ pc out res log, r = .ok pc out res log → PlainRes res) :
+    (applyOutcome env o c now s inPeers r).1.node.nextPeers = c.node.nextPeers := by
+  rw [applyOutcome_eq]
+  cases r with
+  | panic => rfl
+  | err pc e => exact storePc_nextPeers c s inPeers pc
+  | ok pc out res log =>
+    simp only []
+    rw [handleResult_nextPeers_plain env o _ now s res out (hr pc out res log rfl)]
+    exact storePc_nextPeers c s inPeers pc
+
+theorem responder_schedStep (env : CryptoEnv) (bodyOf : Init.BodyOf) (o : Oracle) (n : Node) (now : Int) (s : NAddr) (data tail : Bytes)
     (rnd : Rand) (rr : RotRand) (hash : Option Bytes) :
-    (responder env bodyOf o n now s data tail rnd rr hash).1.node.nextPeers = n.nextPeers := by
+    SchedStep now s { node := n } (responder env bodyOf o n now s data tail rnd rr hash).1 := by
   unfold responder
   simp only []
   split
-  · rw [handleResult_nextPeers]; rfl
-  · rfl
-  · rfl
+  · exact (handleResult_schedStep env o _ now s _ _).pre rfl rfl
+  · exact SchedStep.same rfl rfl
+  · exact SchedStep.same rfl rfl
 
-/-- no datagram reschedules the announcement: `next_peers` is written by `housekeep` only -/
-theorem handleNet_nextPeers (env : CryptoEnv) (bodyOf : Init.BodyOf) (o : Oracle) (n : Node) (now : Int) (src0 : NAddr) (data tail : Bytes) :
-    (handleNet env bodyOf o n now src0 data tail).1.node.nextPeers = n.nextPeers := by
+theorem finish_nextPeers (s : NAddr) (r : Ctx × Option InitErr) : (finish s r).1.node.nextPeers = r.1.node.nextPeers := by
+  unfold finish; split <;> rfl
+
+/-- a datagram either leaves the schedule alone and adds no peer address, or pulls the schedule forward to `now`, and then its sender
+    is a peer afterwards -/
+theorem handleNet_schedStep (env : CryptoEnv) (bodyOf : Init.BodyOf) (o : Oracle) (n : Node) (now : Int) (src0 : NAddr) (data tail : Bytes) :
+    SchedStep now (mappedAddr src0) { node := n } (handleNet env bodyOf o n now src0 data tail).1 := by
   rw [handleNet_eq]
-  have hfin : ∀ r : Ctx × Option InitErr, (finish (mappedAddr src0) r).1.node.nextPeers = r.1.node.nextPeers := by
-    intro r; unfold finish; split <;> rfl
-  rw [hfin]
-  unfold dispatch
-  simp only []
-  split
-  · split
-    · exact applyOutcome_nextPeers ..
+  have hd : SchedStep now (mappedAddr src0) { node := n } (dispatch env bodyOf o n now (mappedAddr src0) data tail).1 := by
+    unfold dispatch
+    simp only []
+    split
     · split
-      · exact applyOutcome_nextPeers ..
+      · exact applyOutcome_schedStep ..
       · split
-        · exact applyOutcome_nextPeers ..
-        · exact responder_nextPeers ..
-  · exact applyOutcome_nextPeers ..
-  · split
-    · exact responder_nextPeers ..
-    · rfl
+        · exact applyOutcome_schedStep ..
+        · split
+          · exact applyOutcome_schedStep ..
+          · exact responder_schedStep ..
+    · exact applyOutcome_schedStep ..
+    · split
+      · exact responder_schedStep ..
+      · exact SchedStep.same rfl rfl
+  unfold SchedStep
+  rw [finish_nextPeers, finish_peers]
+  exact hd
+
+/-- a datagram without the handshake marker does not reschedule the announcement -/
+theorem handleNet_nextPeers_plain (env : CryptoEnv) (bodyOf : Init.BodyOf) (o : Oracle) (n : Node) (now : Int) (src0 : NAddr) (data tail : Bytes)
+    (hinit : data.head? ≠ some Generated.INIT_MESSAGE_FIRST_BYTE) :
+    (handleNet env bodyOf o n now src0 data tail).1.node.nextPeers = n.nextPeers := by
+  rw [handleNet_eq, finish_nextPeers]
+  have hpl : ∀ pc, ∀ pc' out res log, PeerCrypto.handleMessage env bodyOf payloadOk pc data tail
+      (rndFor o { node := n } (mappedAddr src0)).1 (rndFor o { node := n } (mappedAddr src0)).2.1 = .ok pc' out res log → PlainRes res :=
+    fun pc pc' out res log h => handleMessage_plain env bodyOf payloadOk pc data tail _ _ hinit pc' out res log h
+  unfold dispatch
+  simp only [hinit, decide_false, Bool.not_false, if_true, if_false]
+  split
+  · exact applyOutcome_nextPeers_plain env o _ now _ _ _ (hpl _)
+  · exact applyOutcome_nextPeers_plain env o _ now _ _ _ (hpl _)
+  · rfl
 
 /-- `add_new_peer` stores the new peer with expiry `now + peer_timeout` (own setting) and the timeout it advertised (default 300) -/
 theorem addNewPeer_peer (env : CryptoEnv) (o : Oracle) (c : Ctx) (now : Int) (a : NAddr) (info : NodeInfo) (pc : PeerCrypto)
